@@ -197,6 +197,10 @@ def check_cache_reads_own_key(ck, cm: CacheModel, R):
     obtained elsewhere (another call that shares the stored object, a content index, ...): two calls
     that write different results under one override key have different values but equal content keys."""
     fa = FA(ck, cm.cls.methods["read_result"])
+    if any(r.value is not None and not fa.nodes(r) for r in fa.returns()):
+        # a return in a handler of a try body without a call (`try: e = self.cache[k] except KeyError: return self.refs[k]`): only the
+        # CFG with implicit exception edges reaches it
+        fa = FA(ck, cm.cls.methods["read_result"], exc_mode="all")
     ck.need(len(fa.fi.params) >= 2, "MemoryCache.read_result(memento) signature changed")
     mem = fa.fi.params[1]
     own = _cache_key_canon(ck, cm, ast.parse("self._cache_key_for_memento(%s)" % mem, mode="eval").body)
@@ -273,23 +277,42 @@ def _cache_key_canon(ck, cm, key_expr) -> str:
 def check_metadata_single_form(ck, R):
     """Custom metadata for a key lives in ONE of two forms (a plain file, or a marker that says the value is beside
     the data object) and the reader probes the plain form first: a writer that leaves the other form behind makes
-    a later read return the superseded value.  write_metadata removes the key's other form."""
+    a later read return the superseded value.  write_metadata removes the key's other form: decided for both values of
+    the form flag -- under each, every way to the normal exit passes a delete of the key built with the OPPOSITE flag
+    (a by-pass only where that key was found not to exist)."""
+    from .effects import Assume, param_truth_atom
     fa = FA(ck, MDS + ".write_metadata")
+    mkf = ck.repo.try_func(MDS + "._get_metadata_key")
+    mkp = mkf.params if mkf is not None else ["fn_with_arg_hash", "key", "stored_with_data"]
+    flag = fa.fi.params[4] if len(fa.fi.params) > 4 else "stored_with_data"
     dels = [c for c in fa.calls("delete_all_versions") + fa.calls("delete_nonversioned_key")]
-    ok = False
-    for c in dels:
-        key_ = A.arg_or_kw(c, 0, "key")
-        if key_ is None:
-            continue
-        e = safe_expand(fa, key_, c)
-        inner = [x for x in ast.walk(e) if isinstance(x, ast.Call) and A.call_attr(x) == "_get_metadata_key"]
-        mkf = ck.repo.try_func(MDS + "._get_metadata_key")
-        mkp = mkf.params if mkf is not None else ["fn_with_arg_hash", "key", "stored_with_data"]
-        for x in inner:
-            form = _bind(x, mkp).get(mkp[-1])
-            # the other form: the negation of the flag this write was asked for
-            if isinstance(form, ast.UnaryOp) and isinstance(form.op, ast.Not) and A.norm(form.operand) == "stored_with_data":
-                ok = True
+    ok = bool(dels)
+    for v in (True, False):
+        asm = Assume(fa, param_truth_atom(flag, v))
+        good = []
+        for c in dels:
+            key_ = A.arg_or_kw(c, 0, "key")
+            if key_ is None:
+                continue
+            for i in asm.may_run(c):
+                forms = []
+                for (leaf, n) in asm.cases(key_, i):
+                    e = leaf
+                    try:
+                        e = fa.expand(leaf, n)
+                    except AnalysisError:
+                        pass
+                    inner = [x for x in ast.walk(e) if isinstance(x, ast.Call) and A.call_attr(x) == "_get_metadata_key"]
+                    if len(inner) != 1:
+                        forms.append(None)
+                        continue
+                    form = _bind(inner[0], mkp).get(mkp[-1])
+                    forms.append(asm.ev(form, n) if form is not None else None)
+                if forms and all(f is (not v) for f in forms):
+                    good.append(i)
+        absent = branch_filter(fa, lambda t, p: (not p) and "exists_nonversioned(" in t)
+        okv = bool(good) and fa.cfg.exit not in fa.cfg.reach([fa.cfg.entry], removed=good, edge_ok=both(asm.edge_ok, absent))
+        ok = ok and okv
     ck.ob(R, fa.key(None, "other-form-removed"), ok, "writing one form of a metadata key removes the other form" if ok else
           "write_metadata does not remove the key's other form (plain file / with-data marker): write_metadata(k, v1) followed by "
           "write_metadata(k, v2, store_with_content_key=...) reads back v1 on the filesystem backend, v2 on the memory backend", fa.where())
@@ -1045,17 +1068,24 @@ def check_cache_coherence(ck, cm):
     # referenced, the slot of the previous value must be cleared (it would be served later)
     if cm.refs:
         for name, m in cm.cls.methods.items():
-            fa_ = FA(ck, m)
+            fa_ = FA(ck, m, exc_mode="all")     # the store into a weak table has no call: only implicit exception edges reach its handler
             for st in fa_.stmts(ast.Assign):
                 if any(isinstance(t, ast.Subscript) and self_attr(t.value, cm.refs) for t in st.targets):
                     tr = fa_.enclosing(st, ast.Try)
                     if tr is None or not any(fa_.inside(st, b) for b in tr.body):
                         continue
+                    # what empties the key's weak slot: pop / del on the weak table (inside the handler, or before the store
+                    # is attempted -- on every way that comes through the handler and goes on to the normal exit)
+                    clear_nodes = [n for n in A.walk_body(fa_.node)
+                                   if (isinstance(n, ast.Call) and A.call_attr(n) == "pop" and self_attr(A.call_recv(n), cm.refs) and fa_.unconditional(n))
+                                   or (isinstance(n, ast.Delete) and any(isinstance(t, ast.Subscript) and self_attr(t.value, cm.refs) for t in n.targets))]
+                    absent_ = branch_filter(fa_, lambda t, p, r_=cm.refs: (not p) and (" in self.%s" % r_) in t)
                     for h in tr.handlers:
                         swallows = not any(isinstance(n, ast.Raise) for n in A.walk_local(h))
-                        clears = any((isinstance(n, ast.Call) and A.call_attr(n) == "pop" and self_attr(A.call_recv(n), cm.refs)) or
-                                     (isinstance(n, ast.Delete) and any(isinstance(t, ast.Subscript) and self_attr(t.value, cm.refs) for t in n.targets))
-                                     for n in A.walk_local(h))
+                        hn = fa_.nodes(h)
+                        clears = bool(hn) and bool(clear_nodes) and every_path_through(fa_, hn, fa_.nodes_all(clear_nodes), edge_ok=absent_)
+                        if not hn:
+                            clears = any(fa_.inside(n, h) for n in clear_nodes)
                         okw = (not swallows) or clears
                         ck.ob(R, fa_.key(None, "weak-slot-replaced"), okw, "a value that cannot be weakly referenced clears the key's weak slot" if okw else
                               "when the new value cannot be weakly referenced the handler keeps the previous value's weak reference: after the entry "
